@@ -556,6 +556,74 @@ def check_seed_stage(ctx, case):
   return True
 
 
+def check_constant_liar(ctx, case):
+  """constant_liar_acquisition_function_optimization: the acquisition function changes between the rounds (a lie is appended
+  at every pick).  Every optimize() call made inside it must still return the best point it evaluated *for the acquisition
+  function of its own round*: reported value = value of the returned point now, not lower than any ending point's value."""
+  L = lib()
+  from libsigopt.compute import vectorized_optimizers as vo
+  afo = L["afo"]
+  numpy.random.seed(case["seed"])
+  dom, cd, domj = build_domain(case)
+  dim = len(case["bounds"])
+  af = build_af(case["af"], dim, case["bounds"])
+  calls = []
+  orig_opt = vo.VectorizedOptimizer.optimize
+  orig_maxiter = afo.find_optimizer_maxiter
+
+  def wrapped(self, *a, **k):
+    best, results = orig_opt(self, *a, **k)
+    st = numpy.random.get_state()
+    try:
+      now = float(self.af.evaluate_at_point_list(numpy.atleast_2d(numpy.asarray(best, dtype=float)))[0])
+      ends = numpy.asarray(self.af.evaluate_at_point_list(numpy.asarray(results.ending_points, dtype=float)), dtype=float)
+    finally:
+      numpy.random.set_state(st)
+    calls.append({"opt": type(self).__name__, "best": numpy.array(best, dtype=float), "reported": float(self.best_value), "now": now,
+                  "ends_now": ends, "ends_reported": numpy.asarray(results.function_values, dtype=float),
+                  "n_lies": int(self.af.predictor.num_sampled)})
+    return best, results
+
+  vo.VectorizedOptimizer.optimize = wrapped
+  afo.find_optimizer_maxiter = lambda **kw: case["maxiter"]
+  try:
+    pts, _info = afo.constant_liar_acquisition_function_optimization(dom, af, case["num_to_sample"])
+  finally:
+    vo.VectorizedOptimizer.optimize = orig_opt
+    afo.find_optimizer_maxiter = orig_maxiter
+  pts = numpy.asarray(pts, dtype=float)
+  if pts.shape != (case["num_to_sample"], dim):
+    ctx.violation("C07 constant-liar: wrong number/shape of returned points", {"case": case, "shape": list(pts.shape)})
+    return False
+  for r, row in enumerate(pts):
+    if not py_in_domain(domj, row):
+      ctx.violation("C07 constant-liar: returned point outside the domain", {"case": case, "round": r, "point": row.tolist()})
+      return False
+  if len(calls) != 2 * case["num_to_sample"]:
+    ctx.disagree(f"constant-liar: {len(calls)} optimize() calls for {case['num_to_sample']} rounds (model: one ES and one GB run per round)", case)
+    return False
+  for ci, c in enumerate(calls):
+    scale = max(abs(c["reported"]), abs(c["now"]), 1e-300)
+    tol = 1e-9 * scale + 1e-13
+    if abs(c["reported"] - c["now"]) > tol:
+      ctx.violation(f"C07 constant-liar: round {ci // 2} {c['opt']} reports best value {c['reported']} but the returned point evaluates to "
+                    f"{c['now']} under the acquisition function of that round (value not reproducible)",
+                    {"case": case, "call": ci, "best": c["best"].tolist(), "reported": c["reported"], "re_evaluated": c["now"]})
+      return False
+    fin = c["ends_now"][numpy.isfinite(c["ends_now"])]
+    if fin.size and c["now"] < float(fin.max()) - tol:
+      ctx.violation(f"C07 constant-liar: round {ci // 2} {c['opt']} returned a point of value {c['now']} although it evaluated an ending "
+                    f"point of value {float(fin.max())}", {"case": case, "call": ci, "best": c["best"].tolist()})
+      return False
+  # each round's pick is the GB stage's best location of that round
+  for r in range(case["num_to_sample"]):
+    if not numpy.array_equal(pts[r], calls[2 * r + 1]["best"]):
+      ctx.violation("C07 constant-liar: a returned point is not the gradient stage's best location of its round", {"case": case, "round": r})
+      return False
+  ctx.count(f"constant-liar rounds={case['num_to_sample']}")
+  return case["num_to_sample"] >= 2
+
+
 # ------------------------------------------------------------------ multistart
 
 def fval_json(v):
@@ -859,6 +927,8 @@ def _check_case(ctx, case):
     nontriv = check_ms(ctx, case)
   elif k == "seed_stage":
     nontriv = check_seed_stage(ctx, case)
+  elif k == "constant_liar":
+    nontriv = check_constant_liar(ctx, case)
   elif k == "adam_step":
     nontriv = check_adam_step(ctx, case)
   elif k == "slsqp_inside":
@@ -1048,6 +1118,13 @@ def gen_seed_stage(rng):
           "maxiter_gd": rng.choice([0, 1, 3]), "n_pre": rng.choice([5, 20])}
 
 
+def gen_constant_liar(rng):
+  bounds, cons, fixed, _c = gen_domain(rng, 1, 3, allow_fixed=False)
+  af = gen_af(rng, bounds, ["ei"])
+  return {"kind": "constant_liar", "seed": rng.randrange(2 ** 31), "bounds": bounds, "constraints": cons, "fixed": {}, "af": af,
+          "num_to_sample": rng.choice([1, 2, 3, 4]), "maxiter": rng.choice([2, 4, 8])}
+
+
 CORPUS = [
   # ties everywhere (constant plateau): the first evaluated point must be returned, DE must keep replacing on >=
   {"kind": "vec", "opt": "de", "seed": 11, "bounds": [[0.0, 1.0], [0.0, 1.0]], "constraints": [], "fixed": {},
@@ -1121,7 +1198,9 @@ def run(ctx, scale):
   n_step = (150 if not thorough else 2500) * scale
   n_slsqp = (100 if not thorough else 1500) * scale
   n_seed = (16 if not thorough else 300) * scale
-  plan = [(gen_vec, n_vec), (gen_ms, n_ms), (gen_adam_step, n_step), (gen_slsqp_inside, n_slsqp), (gen_seed_stage, n_seed)]
+  n_cl = (10 if not thorough else 150) * scale
+  plan = [(gen_vec, n_vec), (gen_ms, n_ms), (gen_adam_step, n_step), (gen_slsqp_inside, n_slsqp), (gen_seed_stage, n_seed),
+          (gen_constant_liar, n_cl)]
   for gen, n in plan:
     for _ in range(n):
       case = gen(rng, thorough) if gen is gen_vec else gen(rng)
